@@ -513,7 +513,7 @@ class Pregnancy(Demographics):
                     layer.add_pairs(conceive_uids, new_uids, dur=durs, start=start)
 
         if self.ti < 0:
-            people.age[new_uids] += -self.ti * self.sim.t.dt_year # Age to ti=0
+            people.age[new_uids] += -self.ti * self.t.dt_year # Age to ti=0 (in steps of this module)
 
         return new_uids
 
